@@ -1,3 +1,3 @@
 From Coq Require Import ExtrOcamlBasic.
 From HV Require Import Base.BSet Gen.Tables Text.TypeOrder Topo.Dump Topo.WFCheck Topo.Obj Topo.Insert Topo.Api.
-Extraction "c02_model.ml" wf_check levels_agree model_levels dump_levels hist_check ud_check dm_vanish_check step topo_of_dump compare_with_dump get_extra find_by_gp max_gp tm_of.
+Extraction "c02_model.ml" wf_check levels_agree model_levels dump_levels hist_check ud_check dm_vanish_check group_depth_check step topo_of_dump compare_with_dump get_extra find_by_gp max_gp tm_of.
